@@ -442,7 +442,87 @@ def rule_d(ctx: Ctx) -> None:
                          "max_errors used outside concat_messages: it may limit which errors are reported")
 
 
-RULES = [rule_a, rule_b, rule_c, rule_d]
+def rule_e(ctx: Ctx) -> None:
+    ctx.rule(
+        "C14.e",
+        "delegating generators: a Generator subclass whose generate() delegates to sub-generators constructs each of them with every "
+        "generator option it received itself (unsupported_level, max_unsupported, comments, pretty, ...), explicitly or through a kwargs helper",
+    )
+    repo = ctx.repo
+    g = repo.cls("sqlglot.generator", "Generator")
+    base_init = g.methods()["__init__"]
+    options = [a.arg for a in base_init.args.args if a.arg not in ("self", "dialect")]
+    n = 0
+    for c in repo.subclasses(g):
+        gen = c.methods().get("generate")
+        if gen is None:
+            continue
+        delegates = sorted({
+            x.func.value.attr for x in walk_no_nested(gen)
+            if isinstance(x, ast.Call) and isinstance(x.func, ast.Attribute) and x.func.attr == "generate" and is_self_attr(x.func.value)
+        })
+        if not delegates:
+            continue
+        init = c.methods().get("__init__")
+        where = f"{c.key}.__init__"
+        if init is None:
+            ctx.fail(c.module, gen, f"{c.key}.generate", gen.name, "generate() delegates to sub-generators but the class has no __init__ constructing them")
+            continue
+        own_params = {a.arg for a in init.args.args + init.args.kwonlyargs}
+        # kwargs helpers: local = helper(p1, p2, ...) ; which option names does the returned dict carry?
+        carried: dict[str, set[str]] = {}
+        for st in walk_no_nested(init):
+            if isinstance(st, ast.Assign) and len(st.targets) == 1 and isinstance(st.targets[0], ast.Name) and isinstance(st.value, ast.Call):
+                cn = call_name(st.value)
+                r = repo.resolve_name(c.module, cn) if cn else None
+                if r and r[1] in r[0].funcs:
+                    helper = r[0].funcs[r[1]].node
+                    hparams = [a.arg for a in helper.args.args]
+                    passed = {}
+                    for i, a in enumerate(st.value.args):
+                        if i < len(hparams) and isinstance(a, ast.Name):
+                            passed[hparams[i]] = a.id
+                    for kw in st.value.keywords:
+                        if kw.arg and isinstance(kw.value, ast.Name):
+                            passed[kw.arg] = kw.value.id
+                    keys: set[str] = set()
+                    for x in ast.walk(helper):
+                        if isinstance(x, ast.Dict):
+                            for k, v in zip(x.keys, x.values):
+                                if isinstance(k, ast.Constant) and isinstance(v, ast.Name) and v.id in passed and passed[v.id] == k.value:
+                                    keys.add(k.value)
+                        if isinstance(x, ast.Assign) and isinstance(x.targets[0], ast.Subscript) and isinstance(x.targets[0].slice, ast.Constant) and isinstance(x.value, ast.Name):
+                            if x.value.id in passed and passed[x.value.id] == x.targets[0].slice.value:
+                                keys.add(x.targets[0].slice.value)
+                    carried[st.targets[0].id] = keys
+        for attr in delegates:
+            ctors = [
+                st.value for st in walk_no_nested(init)
+                if isinstance(st, (ast.Assign, ast.AnnAssign)) and is_self_attr(st.targets[0] if isinstance(st, ast.Assign) else st.target, attr) and isinstance(st.value, ast.Call)
+            ]
+            if not ctors:
+                ctx.fail(c.module, init, where, f"self.{attr}", f"delegate self.{attr} used by generate() is not constructed in __init__")
+                continue
+            call = ctors[-1]
+            got = {kw.arg for kw in call.keywords if kw.arg and isinstance(kw.value, ast.Name) and kw.value.id == kw.arg}
+            for kw in call.keywords:
+                if kw.arg is None and isinstance(kw.value, ast.Name):
+                    got |= carried.get(kw.value.id, set())
+            for opt in options:
+                if opt not in own_params:
+                    continue
+                n += 1
+                if opt in got:
+                    ctx.ok(f"{where}|self.{attr} receives {opt}", {"delegate": attr, "option": opt})
+                else:
+                    ctx.fail(c.module, call, where, f"self.{attr} = {norm(call.func)}(...) without {opt}",
+                             f"generate() delegates to self.{attr}, but that generator is constructed without the caller's `{opt}`: the option "
+                             f"(e.g. unsupported_level=RAISE/IGNORE) is silently replaced by the default for everything this dialect generates")
+    ctx.count("delegate_option_obligations", n)
+    ctx.min_instances("delegate_option_obligations", n, 10)
+
+
+RULES = [rule_a, rule_b, rule_c, rule_d, rule_e]
 EXPLANATION = (
     "Exhaustive static discharge of structural obligations that are necessary for C14: who-may-read confinement of "
     "the level/error state over every attribute access in the package, report-only shape of level-guarded branches, "
